@@ -832,6 +832,75 @@ pub fn run_c12(p: &Params) -> Report {
             rep.violation("set-matcher:stream-positions", d, rp());
             continue;
         }
+        // (c) the export plugin's front door (every 8th case): exported file = info message + kept messages, in order
+        if i % 16 == 0 && !msgs.is_empty() {
+            if let Ok(dir) = tempfile::tempdir() {
+                let path = dir.path().join("export.dlt");
+                let cfg = json!({"name":"Export","exportFileName": path.to_string_lossy(), "filters": fs.iter().map(to_json_value).collect::<Vec<_>>()});
+                match crate::guard::catch(|| adlt::plugins::export::ExportPlugin::from_json(cfg.as_object().unwrap()).map_err(|e| e.to_string())) {
+                    Ok(Ok(plugin)) => {
+                        let (tx, rx) = std::sync::mpsc::channel();
+                        for (m, _) in &msgs {
+                            tx.send(m.clone()).unwrap();
+                        }
+                        drop(tx);
+                        let forwarded = std::cell::Cell::new(0usize);
+                        let r = crate::guard::catch(|| {
+                            adlt::plugins::plugins_process_msgs(
+                                rx,
+                                &|_m| {
+                                    forwarded.set(forwarded.get() + 1);
+                                    Ok(())
+                                },
+                                vec![Box::new(plugin)],
+                            )
+                        });
+                        match r {
+                            Err(pi) => {
+                                rep.violation(&pi.class(), format!("export plugin panicked at {}:{} {}", pi.file, pi.line, pi.msg), rp());
+                                continue;
+                            }
+                            Ok(_plugins) => {
+                                drop(_plugins);
+                                let bytes = std::fs::read(&path).unwrap_or_default();
+                                let mut exp_bytes = Vec::new();
+                                let mut nkept = 0;
+                                for (m, t) in &msgs {
+                                    if spec_keep(&fs, m, t, true) {
+                                        m.to_write(&mut exp_bytes).unwrap();
+                                        nkept += 1;
+                                    }
+                                }
+                                rep.inc("export_plugin_files_compared");
+                                // skip the leading info message(s): the exported messages are the tail of the file
+                                let ok = if nkept == 0 { bytes.is_empty() } else { bytes.len() >= exp_bytes.len() && bytes[bytes.len() - exp_bytes.len()..] == exp_bytes[..] };
+                                if !ok {
+                                    rep.violation("export-plugin:selection", format!("exported file ({} bytes) does not end with the {} kept messages ({} bytes) in order", bytes.len(), nkept, exp_bytes.len()), rp());
+                                    continue;
+                                }
+                                if nkept > 0 {
+                                    // and nothing else but the info message precedes them
+                                    let head = &bytes[..bytes.len() - exp_bytes.len()];
+                                    let n_head = crate::refdlt::decode_all(head, false).map(|v| v.len()).unwrap_or(usize::MAX);
+                                    if n_head != 1 {
+                                        rep.violation("export-plugin:extra-messages", format!("{} messages precede the kept ones in the exported file (expected the one info message)", n_head), rp());
+                                        continue;
+                                    }
+                                }
+                            }
+                        }
+                    }
+                    Ok(Err(e)) => {
+                        rep.violation("front-end:export-plugin-rejected", e, rp());
+                        continue;
+                    }
+                    Err(pi) => {
+                        rep.violation(&pi.class(), format!("panic at {}:{} {}", pi.file, pi.line, pi.msg), rp());
+                        continue;
+                    }
+                }
+            }
+        }
         let en_pos = fs.iter().any(|f| f.enabled && f.kind == 0);
         let en_neg = fs.iter().any(|f| f.enabled && f.kind == 1);
         if en_pos && en_neg && !exp.is_empty() && exp.len() < n {
